@@ -334,6 +334,92 @@ def make_odd_weather(ex):
     open(os.path.join(w, "109_120.csv"), "w").write("\n".join(L))
 
 
+# ---- lines that share input FILES AND IDS (same project, soil id, polygon, weather file, crop file) and differ from the
+# group's base line in exactly one configuration key that changes how those inputs are interpreted (C03, C11): an incomplete
+# cache key of any session-level pool shows as a difference between a line inside the group batch and the same line alone
+INTERP_BASES = {
+    "ex3":  "project=ex3 WeatherFolder=historical soilId=075 fcode=109_120 plotNr=10001 Altitude=73 Latitude=52.6732 poligonID=29872 EndDate=12311982",
+    "bulk": "project=bulk WeatherFolder=historical soilId=002 fcode=109_120 plotNr=10001 Altitude=73 Latitude=52.6732 poligonID=29872 EndDate=12311982",
+    "ex1":  "project=ex1 WeatherFolder=historical soilId=075 fcode=109_120 plotNr=10001 Altitude=73 Latitude=52.6732 poligonID=29872 EndDate=12311982",
+    "ex2":  "project=ex2 WeatherFolder=historical soilId=002 plotNr=10001 Altitude=73 Latitude=52.6732 poligonID=29872 EndDate=12311982",
+    "rue":  "project=rue WeatherFolder=historical fcode=109_120 plotNr=10001 soilId=001 Altitude=73 Latitude=52.6732 poligonID=29872 EndDate=31121982",
+}
+INTERP_KEYS = {   # project -> [(key=value[ key=value]) ...]; GroundWaterFrom: 0 polygonfile, 1 soilfile, 2 gwTimeSeries
+    "ex3":  ["GroundWaterFrom=1", "GroundWaterFrom=0", "PTF=1", "PTF=3", "LeachingDepth=9", "EndDate=12311981", "AutoIrrigation=0", "Fertilization=50"],
+    "bulk": ["GroundWaterFrom=0", "PTF=2", "PTF=4", "LeachingDepth=9", "EndDate=12311983", "ETpot=1", "InitSelection=1", "AutoFertilization=0"],
+    "ex1":  ["GroundWaterFrom=0", "CropFileFormat=txt", "WeatherFileFormat=2 WeatherFile=%s.w6d", "PTF=1", "CO2method=1", "EndDate=12311983", "KcFactorBareSoil=0.8"],
+    "ex2":  ["SoilFileExtension=txt", "GroundWaterFrom=0", "LeachingDepth=12"],
+    "rue":  ["LeachingDepth=9", "NDeposition=40", "OrganicMatterMineralProportion=0.2", "AutoIrrigation=0"],
+}
+
+
+def interp_lines():
+    out, groups = {}, {}
+    for P, base in INTERP_BASES.items():
+        out["ik:%s:base" % P] = base
+        groups[P] = ["ik:%s:base" % P]
+        for kv in INTERP_KEYS[P]:
+            line = base
+            for tok in kv.split():
+                k, v = tok.split("=", 1)
+                line = _tok(line, k, v)
+            name = "ik:%s:%s" % (P, kv.replace(" ", "+"))
+            out[name] = line; groups[P].append(name)
+    return out, groups
+
+
+INTERP, INTERP_GROUPS = interp_lines()
+
+
+def run_interp_groups(binary, ex, rng, concs=(1, 3), timeout=120):
+    """solo run of every line + every group batch forwards and backwards at concurrency 1 and shuffled at the others.
+    Returns (solo: name -> (Exec, digest), runs: [(Exec, [digest per line])])"""
+    jobs = [lambda k=k: (k, run_batch(binary, ex, "iks_" + re.sub(r"\W", "_", k), [k], INTERP, 1, 4, timeout=timeout)) for k in INTERP]
+    solo = {}
+    for k, e in parallel(jobs, 6):
+        solo[k] = (e, folder_digest(os.path.join(e.root, "l0")))
+        shutil.rmtree(e.root, ignore_errors=True)
+    jobs = []
+    for P, names in INTERP_GROUPS.items():
+        ok = [n for n in names if not solo[n][0].died() and solo[n][0].count == 0]
+        orders = [("f", list(ok), 1), ("r", list(reversed(ok)), 1)]
+        for c in concs:
+            if c > 1:
+                o = list(ok); rng.shuffle(o); orders.append(("s%d" % c, o, c))
+        for tag, order, c in orders:
+            jobs.append(lambda P=P, tag=tag, order=order, c=c: run_batch(binary, ex, "ikg_%s_%s" % (P, tag), order, INTERP, c, 4, timeout=timeout))
+    runs = []
+    for e in parallel(jobs, 6):
+        runs.append((e, [folder_digest(os.path.join(e.root, "l%d" % i)) for i in range(len(e.contents))]))
+        shutil.rmtree(e.root, ignore_errors=True)
+    return solo, runs
+
+
+def interp_fails(Fail, solo, runs):
+    fails = []
+    for k, (e, d) in solo.items():
+        if e.died():
+            fails.append(Fail(key="interpretation-key:%s:solo-died" % k, what="a line with one configuration key changed kills the process when run alone",
+                              line=INTERP[k], rc=e.rc, stderr=e.stderr[-500:]))
+    for e, digs in runs:
+        replay = ("cd <copy of /repo/examples>; batch: " + " || ".join("%s resultfolder=G/l%d" % (INTERP[k], i) for i, k in enumerate(e.contents)) +
+                  " ; hermes2go -module batch -concurrent %d -batch <file>; compare G/l<i> with the result folder of line i run alone" % e.c)
+        if e.died():
+            fails.append(Fail(key="interpretation-key:%s:batch-died" % e.tag, what="group batch did not finish normally", rc=e.rc, stderr=e.stderr[-500:], replay=replay))
+            continue
+        if e.count != 0:
+            fails.append(Fail(key="interpretation-key:%s:errors" % e.tag, what="lines that succeed alone fail inside the group batch", summary=e.summary, replay=replay))
+        for i, k in enumerate(e.contents):
+            if digs[i] != solo[k][1]:
+                diff = sorted(f for f in set(digs[i]) | set(solo[k][1]) if digs[i].get(f) != solo[k][1].get(f))
+                P, kv = k.split(":", 2)[1:]
+                fails.append(Fail(key="interpretation-key:%s:%s" % (P, kv.split("=")[0]),
+                                  what="a line differs from its solo run when it shares a session with lines that use the same input files and ids "
+                                       "under another value of one configuration key (state cached under an incomplete key?)",
+                                  line=INTERP[k], position=i, concurrency=e.c, files=diff[:6], earlier_lines=[INTERP[x] for x in e.contents[:i]][:8], replay=replay))
+    return fails
+
+
 class Exec:
     """one execution of the batch binary"""
     def __init__(self):
